@@ -7,6 +7,8 @@
 import ClairModel.Model.RhcTag
 import ClairModel.Proofs.Version
 
+set_option linter.unusedSimpArgs false
+
 namespace ClairModel.RhcTag
 open ClairModel.Order ClairModel.Version
 
